@@ -79,7 +79,16 @@ class P:
             cases.append("%s\t%s" % (hx(src), e))
         for src, hd in [("cat <<E\n\nfoo\nE\n", [("<<", "\nfoo\n", "E", False)]), ("cat <<-E\n\tfoo\n\tE\n", [("<<-", "\tfoo\n", "\tE", False)]),
                         ("a <<A <<B\n1\nA\n2\nB\n", [("<<", "1\n", "A", False), ("<<", "2\n", "B", False)]), ("a <<E |\nx\nE\nb\n", [("<<", "x\n", "E", False)]),
-                        ("a <<'E'\n$x `c`\nE\n", [("<<", "$x `c`\n", "E", True)]), ("a <<E\n$x\nE\n", [("<<", "$x\n", "E", False)])]:
+                        ("a <<'E'\n$x `c`\nE\n", [("<<", "$x `c`\n", "E", True)]), ("a <<E\n$x\nE\n", [("<<", "$x\n", "E", False)]),
+                        # a comment between an operator that allows a line break and the newline at which the bodies begin
+                        ("cat <<E | # c\nbody\nE\ntr a b\n", [("<<", "body\n", "E", False)]), ("cat <<E |#c\nbody\nE\nb\n", [("<<", "body\n", "E", False)]),
+                        ("cat <<E && # note\n\nx\nE\nb\n", [("<<", "\nx\n", "E", False)]), ("a <<A <<'B' || #c\n1\nA\n$2\nB\nb\n", [("<<", "1\n", "A", False), ("<<", "$2\n", "B", True)]),
+                        ("{ cat <<E && # c\nbody line\nE\necho ok\n}\n", [("<<", "body line\n", "E", False)]),
+                        ("case x in a) cat <<E ;; # c\nbody\nE\nesac\n", [("<<", "body\n", "E", False)]),
+                        ("cat <<-E | # c\n\tb\n\tE\nx\n", [("<<-", "\tb\n", "\tE", False)]), ("cat <<E | # c1\n# not a comment\nE\nb\n", [("<<", "# not a comment\n", "E", False)]),
+                        ("if a <<E; then # c\nbody\nE\n:; fi\n", [("<<", "body\n", "E", False)]), ("a <<E & # c\nbody\nE\n", [("<<", "body\n", "E", False)]),
+                        ("a <<E; # c\nbody\nE\n", [("<<", "body\n", "E", False)]), ("( a <<E # c\nbody\nE\n)\n", [("<<", "body\n", "E", False)]),
+                        ("while a <<E; do # c\nbody\nE\nb; done\n", [("<<", "body\n", "E", False)])]:
             e = ";".join("|".join(hx(x) for x in (op, body, dline, "1" if q else "0")) for op, body, dline, q in hd)
             cases.append("%s\t%s" % (hx(src), e))
         # the literal-body reader model (Lex/Heredoc.v) against the implementation: quoted delimiters
